@@ -7,11 +7,13 @@ mod observe;
 mod props;
 mod refmodel;
 mod report;
+mod sched;
 mod util;
 mod world;
 
 fn main() {
     util::install_panic_hook();
+    util::mute_stdout();
     let args: Vec<String> = std::env::args().collect();
     if args.len() < 3 {
         eprintln!("usage: btcmc <property> <quick|thorough> | btcmc <property> --replay <file>");
